@@ -132,8 +132,13 @@ fn exact_2d(d: &mut Draw) -> Outcome {
 fn f64_3d(d: &mut Draw) -> Outcome {
     let a = f_unit3(d);
     let use_deg = d.bool();
-    let t = d.f64_in(-20.0, 20.0);
-    let t2 = d.f64_in(-20.0, 20.0);
+    let gen_t = |d: &mut Draw| match d.int(0, 5) {
+        0 => d.f64_slog(1e-14, 1e-2),
+        1 => (d.int(-12, 12) as f64) * std::f64::consts::FRAC_PI_2 + d.f64_slog(1e-14, 1e-3),
+        _ => d.f64_in(-20.0, 20.0),
+    };
+    let t = gen_t(d);
+    let t2 = gen_t(d);
     let v = Vector3::from(f_vec3(d, -10.0, 10.0));
     d.note("axis", &a);
     d.note("angle(rad), given as Deg?", &(t, use_deg));
